@@ -19,7 +19,9 @@ class H(dbmc.Harness):
         self.tier = tier
 
     def make_world(self):
-        return ops.BatchWorld(instances=(('i1', 'standard', 'active'), ('i2', 'job-private', 'pending')))
+        # the pool instance has exactly the cores of job 1 (1000 mcpu): an attempt of job 2 reported by a worker while job 1 runs
+        # there oversubscribes it, so the recorded free cores go negative and every clamp / floor in the arithmetic shows
+        return ops.BatchWorld(instances=(('i1', 'standard', 'active', 1000), ('i2', 'job-private', 'pending')))
 
     def initial(self, w):
         def setup(w):
@@ -113,7 +115,7 @@ class H(dbmc.Harness):
 def check(tier, seed, procs):
     depth = 4 if tier == 'quick' else 7
     res = dbmc.bfs(H, (tier,), depth=depth, procs=procs, time_budget=80 if tier == 'quick' else 900)
-    cov = bf.coverage(res, f'2 jobs (1000 / 250 mcpu), attempts a1,a2 on pool instance i1 (active) + p1 on job-private i2 (pending, may activate), depth {depth}')
+    cov = bf.coverage(res, f'2 jobs (1000 / 250 mcpu), attempts a1,a2 on pool instance i1 (active, 1000 mcpu: can be oversubscribed by a worker report) + p1 on job-private i2 (pending, may activate), depth {depth}')
     return {'coverage': cov, 'violations': res.violations, 'assumptions': bf.ASSUME,
             'vacuous': None if res.states > 100 else f'only {res.states} states'}
 
